@@ -81,6 +81,34 @@ def evalPred (p : Pred) (v : Value) : Bool :=
   | .blob _ => p.op == .gt || p.op == .ge || p.op == .ne
   | .conv _ _ _ => true
 
+def hasSub (s sub : String) : Bool := (s.splitOn sub).length > 1
+
+/-- SQLite gives a column TEXT affinity when its declared type contains CHAR, CLOB or TEXT (and not INT, which wins) -/
+def textAffinity (ty : String) : Bool :=
+  let u := ty.toUpper
+  !hasSub u "INT" && (hasSub u "CHAR" || hasSub u "CLOB" || hasSub u "TEXT")
+
+def cmpStr (op : CmpOp) (a b : String) : Bool :=
+  match op with
+  | .gt => b < a | .ge => !(a < b) | .lt => a < b | .le => !(b < a) | .eq => a == b | .ne => a != b
+
+/-- `col op k` on a column of declared type `ty`.  Comparing a TEXT-affinity column with a numeric literal applies TEXT affinity to
+    the literal: the stored text is compared with the literal's text, bytewise (= code point order for UTF-8); every other column
+    compares as `evalPred` says. -/
+def evalPredCol (ty : String) (p : Pred) (v : Value) : Bool :=
+  if textAffinity ty then
+    match v with
+    | .null => true
+    | .text s => cmpStr p.op s (toString p.k)
+    | .blob _ => p.op == .gt || p.op == .ge || p.op == .ne      -- a BLOB sorts after every TEXT
+    | _ => evalPred p v
+  else evalPred p v
+
+def colType (cols : List ColDef) (name : String) : String :=
+  match cols.find? (·.name == name) with
+  | some c => c.ty
+  | none => ""
+
 def uniqueKeys (s : Schema) : List (List String) :=
   ((match s.pk with
    | some p => if p.cols.isEmpty then [] else [p.cols]
@@ -100,7 +128,7 @@ def keyClash (cols : List ColDef) (key : List String) (inserted : List Row) (r :
 def rowViolation (s : Schema) (inserted : List Row) (r : Row) : Option Err :=
   if s.cols.any (fun c => !c.nullable && cell s.cols r c.name == .null) then some .notNull
   else if s.checks.any (fun c => match c.pred with
-      | some p => (colIndex s.cols p.col).isSome && !evalPred p (cell s.cols r p.col)
+      | some p => (colIndex s.cols p.col).isSome && !evalPredCol (colType s.cols p.col) p (cell s.cols r p.col)
       | none => false) then some .check
   else if (uniqueKeys s).any (fun k => keyClash s.cols k inserted r) then some .unique
   else none
@@ -146,7 +174,7 @@ def checkMentionsOk (s : Schema) : Bool :=
 /-- does the row belong to the (partial) index?  SQL `WHERE`: a NULL operand makes the predicate not true -/
 def rowInIndex (cols : List ColDef) (ix : Index) (r : Row) : Bool :=
   match ix.wherePred with
-  | some p => cell cols r p.col != .null && evalPred p (cell cols r p.col)
+  | some p => cell cols r p.col != .null && evalPredCol (colType cols p.col) p (cell cols r p.col)
   | none => true
 
 /-- `CREATE [UNIQUE] INDEX … [WHERE …]` on table `t` in database `db` -/
